@@ -3,7 +3,7 @@
 # Applies the patch to a scratch copy of the committed /repo/src (git archive HEAD) (outside /repo and /verif), runs the check against it
 # via REDUINO_SRC and removes the copy.  Never touches /repo.
 set -u
-patch="$1"; shift
+patch=$(readlink -f "$1"); shift
 id="$1"; shift
 scratch=$(mktemp -d /tmp/redu-mut-XXXXXX)
 git -C /repo archive HEAD src | tar -x -C "$scratch"
